@@ -71,7 +71,11 @@ TRUSTED = [
 RULE = (
     "op template (Operations.rename_table/add_column/drop_column/alter_column variants/drop_constraint, 19 templates) x dialect "
     "(sqlite, postgresql, mysql, mariadb, mssql, oracle) x schema kind (none, plain, needs-quoting, dotted, quoted_name) x identifier "
-    "class per name slot (main stream: plain, reserved, mixed case, space, dialect quote char, single quote, non-ASCII, digit/_/$ "
+    "class per name slot; third stream 'impl-paths': op.alter_column with every subset of {type_, nullable, server_default set/None, "
+    "new_column_name, comment, autoincrement} x 3 existing_* patterns and MSSQL drop_column with every subset of mssql_drop_* flags, "
+    "x dialect x all five schema kinds, random name classes; every statement of a multi-statement op is judged by the Lean "
+    "specification against the table/schema/column the OPERATION named (not what the construct object carries) "
+    "(main stream: plain, reserved, mixed case, space, dialect quote char, single quote, non-ASCII, digit/_/$ "
     "initial, edge; separate extra-classes stream: names containing % or TAB): exhaustive over the class product, random inside a class; a case is non-trivial when at least one "
     "name needs quoting or a schema is given; distinct by emitted text"
 )
@@ -156,6 +160,29 @@ def name_class_flags(names, close_q):
     return sorted(s)
 
 
+def expected_construct(cj, desc):
+    """What the OPERATION asked for, in the construct's vocabulary: the table, schema and column names of the op
+    description override whatever the construct object carries (a construct built without the op's schema must
+    fail the specification, not pass it vacuously)."""
+    e = dict(cj)
+    if desc.get("op") == "compile":
+        return e
+    e["t"] = desc["t"]
+    e["schema"] = desc.get("schema")
+    if "col" in desc:
+        if "col" in cj:
+            e["col"] = desc["col"]
+        if "rawcol" in cj:
+            e["rawcol"] = I.name_str(desc["col"])
+    if cj.get("c") == "renameTable":
+        e["new"] = desc["new"]
+    if cj.get("c") in ("columnName", "mysqlChange") and (desc.get("kw") or {}).get("new_column_name") is not None:
+        e["new"] = desc["kw"]["new_column_name"]
+    if cj.get("c") == "mysqlDropConstraint" and cj.get("dkind") != "pk":
+        e["cname"] = desc["cname"]
+    return e
+
+
 def run_desc(ctx, dialect, desc, meta, pending, expect_ok=True):
     c = I.Ctx.get(dialect)
     recs, err = I.apply_op(c, desc)
@@ -172,8 +199,11 @@ def run_desc(ctx, dialect, desc, meta, pending, expect_ok=True):
         if cj.get("c") == "?" or emitted is None:
             ctx.disagree("ident.describe", inp, {"raw": raw}, cj)
             continue
-        names = I.all_names(cj)
-        pending.append((inp, emitted, {"op": "ident.stmt", "kind": dialect, "reserved": c.reserved(names), "construct": cj, "emitted": emitted}))
+        ecj = expected_construct(cj, desc)
+        names = I.all_names(cj) + I.all_names(ecj)
+        ctx.hist("statements_per_op", len(recs))
+        pending.append((inp, emitted, {"op": "ident.stmt", "kind": dialect, "reserved": c.reserved(names), "construct": cj,
+                                       "specConstruct": ecj, "emitted": emitted}))
 
 
 def flush(ctx, pending):
@@ -225,6 +255,60 @@ def gen_cases(ctx, rng, classes, schema_kinds, reps, dialects=None, templates=No
                         yield d, desc, {"template": key, "classes": list(combo), "schema_kind": sk}
 
 
+def gen_impl_paths(ctx, rng, schema_kinds, reps):
+    """impl-level multi-statement paths: op.alter_column with EVERY subset of {type_, nullable, server_default (set / None),
+    new_column_name, comment, autoincrement} x a small set of existing_* patterns, on every dialect and schema kind
+    (names: random classes per slot); plus MSSQL drop_column with every subset of the mssql_drop_* flags."""
+    existing = [
+        {"existing_type": "INTEGER"},
+        {"existing_type": "VARCHAR50", "existing_nullable": False, "existing_server_default": "zero"},
+        {"existing_type": "DATETIME", "existing_nullable": True, "existing_server_default": "now", "existing_comment": "old c'm"},
+    ]
+    for d in I.ALL_DIALECTS:
+        c = I.Ctx.get(d)
+        p = c.prep
+        has_comment = d in ("postgresql", "mysql", "mariadb", "oracle")
+        has_autoinc = d in ("mysql", "mariadb")
+        for sk in schema_kinds:
+            for ty, nu, df, nm, cm, ai in itertools.product([0, 1], [0, 1], [0, 1, 2], [0, 1], [0, 1] if has_comment else [0],
+                                                            [0, 1] if has_autoinc else [0]):
+                if not (ty or nu or df or nm or cm or ai):
+                    continue
+                for _ in range(reps):
+                    nm_ = lambda: G.gen_name(rng, rng.choice(G.CLASSES), p.final_quote, p.initial_quote, p.reserved_words)  # noqa
+                    names = {"t": nm_(), "col": nm_(), "new": nm_()}
+                    schema = G.gen_schema(rng, sk, p.final_quote, p.initial_quote, p.reserved_words, G.CLASSES)
+                    kw = dict(rng.choice(existing))
+                    if ty:
+                        kw["type_"] = rng.choice(G.TY)
+                    if nu:
+                        kw["nullable"] = rng.random() < 0.5
+                    if df == 1:
+                        kw["server_default"] = rng.choice(G.DF)
+                    elif df == 2:
+                        kw["server_default"] = None
+                    if nm:
+                        kw["new_column_name"] = names["new"]
+                    if cm:
+                        kw["comment"] = rng.choice(["a comment", "it's", None])
+                    if ai:
+                        kw["autoincrement"] = rng.random() < 0.7
+                    if not has_comment:
+                        kw.pop("existing_comment", None)
+                    desc = {"op": "alter_column", "t": names["t"], "col": names["col"], "schema": schema, "kw": kw}
+                    key = "alter[%s]" % "".join(x for x, on in zip("TNDRCA", (ty, nu, df, nm, cm, ai)) if on)
+                    yield d, desc, {"template": key, "classes": [], "schema_kind": sk}
+            if d == "mssql":
+                for flags in itertools.product([False, True], repeat=3):
+                    for _ in range(reps * 3):
+                        nm_ = lambda: G.gen_name(rng, rng.choice(G.CLASSES), p.final_quote, p.initial_quote, p.reserved_words)  # noqa
+                        schema = G.gen_schema(rng, sk, p.final_quote, p.initial_quote, p.reserved_words, G.CLASSES)
+                        kw = {k: True for k, on in zip(("mssql_drop_default", "mssql_drop_check", "mssql_drop_foreign_key"), flags) if on}
+                        yield d, {"op": "drop_column", "t": nm_(), "col": nm_(), "schema": schema, "kw": kw}, \
+                            {"template": "mssql_drop_column%s" % ("".join("DCF"[i] for i in range(3) if flags[i]) or "-"),
+                             "classes": [], "schema_kind": sk}
+
+
 UNSUPPORTED = [
     ("sqlite", "columnComment"), ("mssql", "columnComment"), ("mysql", "columnNullable"), ("mysql", "columnType"),
     ("mysql", "columnName"), ("mysql", "columnDefault"), ("mariadb", "columnName"),
@@ -271,6 +355,15 @@ def run(ctx, rng_name="main", scale=1):
             run_desc(ctx, d, desc, meta, pending)
             if len(pending) >= 4000:
                 flush(ctx, pending)
+    for d, desc, meta in gen_impl_paths(ctx, rng, G.SCHEMA_KINDS, (2 if not ctx.thorough else 8) * scale):
+        meta["stream"] = "impl-paths"
+        ctx.hist("stream", "impl-paths")
+        ctx.hist("dialect", d)
+        ctx.hist("template", meta["template"])
+        ctx.hist("schema_kind", meta["schema_kind"])
+        run_desc(ctx, d, desc, meta, pending)
+        if len(pending) >= 4000:
+            flush(ctx, pending)
     flush(ctx, pending)
     ctx.exhaustive = True  # the class product is enumerated; inside a class names are random
 
@@ -303,7 +396,9 @@ def _spec_of(ctx, dialect, desc):
         cj = I.describe(c, el)
         if cj is None or cj.get("c") == "?":
             continue
-        a = ctx.drv.ask1({"op": "ident.stmt", "kind": dialect, "reserved": c.reserved(I.all_names(cj)), "construct": cj, "emitted": emitted})
+        ecj = expected_construct(cj, desc)
+        a = ctx.drv.ask1({"op": "ident.stmt", "kind": dialect, "reserved": c.reserved(I.all_names(cj) + I.all_names(ecj)),
+                          "construct": cj, "specConstruct": ecj, "emitted": emitted})
         out.append({"index": idx, "construct": cj, "emitted": emitted, "model": dec(a.get("emit")), "spec": a.get("spec"), "tokens": dec_toks(a.get("toks"))})
     return out, err
 
